@@ -492,7 +492,7 @@ def conforms(o, spec, reg, path='$', lax=None):
     """None if `o` is a value of the annotated type `spec` (exact container type, element types,
     Literal members by value and type, Union members, nested dataclass types); else a description.
     With `lax` (a set) the three listed leniencies of the default engine are admitted and recorded:
-    F25 annotation None keeps anything, F23 Union without None passes None, F24 short fixed tuple."""
+    F46 annotation None keeps anything, F44 Union without None passes None, F45 short fixed tuple."""
     t = spec['t']
     bad = lambda why: '%s: %s (got %s %r)' % (path, why, type(o).__name__, repr(o)[:60])
     rec = lambda x, s, p: conforms(x, s, reg, p, lax)
@@ -500,7 +500,7 @@ def conforms(o, spec, reg, path='$', lax=None):
     if t == 'none':
         if o is None: return None
         if lax is not None and '@v1' not in lax:
-            lax.add('F25-none-annotation-accepts-anything'); return None
+            lax.add('F46-none-annotation-accepts-anything'); return None
         return bad('expected None')
     simple = {'bool': bool, 'int': int, 'float': float, 'str': str, 'bytes': bytes, 'bytearray': bytearray}
     if t in simple:
@@ -526,7 +526,7 @@ def conforms(o, spec, reg, path='$', lax=None):
         if len(o) != len(spec['es']):
             req = sum(1 for e in spec['es'] if not accepts_none(e))
             if lax is not None and '@v1' not in lax and req <= len(o) < len(spec['es']):
-                lax.add('F24-short-tuple-with-optional-members')
+                lax.add('F45-short-tuple-with-optional-members')
             else:
                 return bad('expected %d elements' % len(spec['es']))
         for i, (x, e) in enumerate(zip(o, spec['es'])):
@@ -555,14 +555,14 @@ def conforms(o, spec, reg, path='$', lax=None):
                 if trial: lax.update(trial)
                 return None
         if lax is not None and '@v1' in lax:
-            # F26 (v1): the raw JSON container is returned when a container member failed to parse and the
+            # F47 (v1): the raw JSON container is returned when a container member failed to parse and the
             # Union also has a str/int/float/bool member (type-check variable clobbered by a nested walrus)
             if type(o) in (list, dict) and any(e['t'] in ('str', 'int', 'float', 'bool') for e in spec['es']) \
                     and any(e['t'] in ('seq', 'tuple', 'vartuple', 'dict', 'nt', 'td') for e in spec['es']):
-                lax.add('F26-v1-union-returns-raw-container'); return None
+                lax.add('F47-v1-union-returns-raw-container'); return None
             return bad('in no Union member')
         if o is None and lax is not None:
-            lax.add('F23-union-without-none-passes-none'); return None
+            lax.add('F44-union-without-none-passes-none'); return None
         return bad('in no Union member')
     if t == 'lit':
         for v in spec['vs']:
